@@ -322,6 +322,20 @@ def run_pipeline(res, tier, sc, drv, only_prog=None):
             "wasm_modules_validated": len(programs) - len(invalid), "disagreements_checked": stats["pairs"]}
 
 
+def ts_syntax_error(path):
+    """None when node parses the emitted TypeScript after its type annotations are erased (vlib/ts2js.py), else the
+    first lines of node's complaint"""
+    import subprocess
+    from vlib import ts2js
+    js = path + ".check.js"
+    open(js, "w").write(ts2js.strip(open(path).read()))
+    p = subprocess.run(["node", "--check", js], capture_output=True, text=True, timeout=120)
+    if p.returncode == 0:
+        return None
+    lines = [l for l in p.stderr.split("\n") if l.strip()]
+    return " | ".join(lines[1:5])[:300]
+
+
 def run_module_validity(res, tier, sc, drv):
     """C03: the real compiler must not crash on an accepted corpus program and the binary module it emits must be
     valid (wasmparser, all proposals), both for the configuration users get and for the unoptimized pipeline."""
@@ -343,6 +357,12 @@ def run_module_validity(res, tier, sc, drv):
             continue
         if status.get("status") != "ok":
             raise Inconclusive("corpus program %s is not accepted: %s" % (name, str(status)[:500]))
+        for tf in ["all.ts"] + (["all_00000.ts"] if "00000" in cfgs else []):
+            err = ts_syntax_error(os.path.join(od, tf))
+            checked.append({"program": name, "file": tf, "typescript_parses": err is None})
+            if err is not None:
+                res.violation("the TypeScript emitted for %s (%s) is not syntactically valid: %s" % (name, tf, err),
+                              {"program": name, "modules": mods, "file": tf, "node": err})
         for vf in ["wasm_validation.json"] + (["wasm_validation_00000.json"] if "00000" in cfgs else []):
             v = json.load(open(os.path.join(od, vf)))
             checked.append({"program": name, "file": vf, "valid": not v.get("error")})
@@ -355,6 +375,14 @@ def run_module_validity(res, tier, sc, drv):
     for rel, k in known.items():
         path = os.path.join(VERIF, rel)
         name = os.path.splitext(os.path.basename(path))[0]
+        if k.get("ts_syntax"):
+            od = os.path.join(outroot, "known_" + name)
+            p = drv.call(["dump", od, "11111,00000", "%s=%s" % (name, path)], check=False, timeout=300)
+            errs = [e for e in (ts_syntax_error(os.path.join(od, tf)) for tf in ("all.ts", "all_00000.ts") if os.path.exists(os.path.join(od, tf))) if e]
+            checked.append({"program": rel, "typescript_parses": not errs, "known_finding": k.get("id")})
+            if errs:
+                res.known("%s %s" % (k.get("id"), k.get("short")))
+            continue
         p = drv.call(["compile", os.path.join(outroot, "known_" + name), name, "%s=%s" % (name, path)], check=False, timeout=300)
         st_ = ""
         try:
@@ -430,6 +458,11 @@ def run_generated_accept_set(res, tier, sc, drv):
                           {"property": "C03", "program": prog, "library_module": lib, "generated": name, "stderr": p.stderr[-600:]})
         elif st_.get("status") == "ok":
             counts["accepted"] += 1
+            terr = ts_syntax_error(os.path.join(d, "out", "L.ts"))
+            if terr is not None:
+                counts["invalid_typescript"] = counts.get("invalid_typescript", 0) + 1
+                res.violation("the TypeScript emitted for the accepted generated program %s is not syntactically valid: %s" % (name, terr),
+                              {"property": "C03", "program": prog, "library_module": lib, "generated": name, "node": terr})
             if st_.get("wasm_validation_error"):
                 counts["invalid_modules"] += 1
                 res.violation("the module emitted for the accepted generated program %s is invalid: %s" % (name, st_["wasm_validation_error"]),
